@@ -181,6 +181,109 @@ theorem pipeline_record_clauses {κ} (t0 t : RawTree) (cfg : Config) (vote : Ora
       exact ⟨hg.direct, hg.inferred rfl⟩
   · exact (cellResult_levels rt hv id c o hc).2.2
 
+/-- **every record of the pipeline output is group C's model applied to the
+votes along the cell's walk.**  For each record `o` of a successful run there
+are the cell's raw per-level votes `raw` (one per level of the run's tree: the
+oracle's answer, or the constants of the single-child branch) such that
+ * the flagged walk — which `o` keeps unchanged at every level the run voted
+   on — is `Election.finishCell` of `raw`: so *"the aggregate probability is
+   the running product of the bootstrapping probabilities of the directly
+   assigned levels from the top"* (`C03.aggregate`, `C03.finished_level`) and
+   *"a parent with a single child yields probability 1 with no runners-up and
+   the correlation of the nearest level where a real choice was made"*
+   (`C03.single_child`) hold for it verbatim;
+ * `o` is `Election.inferLevels` of the flagged walk with the parents of the
+   stored tree: so *"inferred levels repeat the numbers of the voted
+   descendant without runner-up fields"* (`C03.inferred`) holds for it. -/
+theorem pipeline_record_is_election_model {κ} (t0 t : RawTree) (cfg : Config) (vote : Oracle κ)
+    (nR : Nat) (ids : List CellId) (cells : List κ) (order : List Nat)
+    (hwf0 : wfb t0 = true) (hrun : runTree t0 cfg = .ok t)
+    (hv : VoteOK t vote) (hpay : PayloadOK nR t vote)
+    (hlen : ids.length = cells.length) (hnd : ids.Nodup)
+    (hproc : 1 ≤ cfg.nProc) (hcs : 1 ≤ cfg.chunkSize)
+    (horder : order.Perm (List.range
+      (chunks cells.length (effChunk cells.length cfg.nProc cfg.chunkSize)).length))
+    (out : List Record) (hout : mapPipeline t0 cfg vote ids cells order = .ok out) :
+    ∀ o ∈ out, ∃ (c : κ) (raw : List (Level × Entry)) (flagged : Record),
+      walkFrom t vote c t.hierarchy none = .ok raw ∧
+      raw.map (·.1) = t.hierarchy ∧ flagged.levels.map (·.1) = t.hierarchy ∧
+      flagged.levels.map (fun le => toElectionOut le.2) =
+        Election.finishCell (raw.map (fun le => toElectionRec le.2)) ∧
+      (∀ l ∈ t.hierarchy, o.levels.lookup l = flagged.levels.lookup l) ∧
+      Election.inferLevels t0.childToParent t0.hierarchy (toElectionCell flagged) =
+        .ok (toElectionCell o) := by
+  have rt := runTreeOK_of_runTree hwf0 hrun
+  obtain ⟨_, hrec⟩ := pipeline_records t0 t cfg vote ids cells order hrun rt.wf hv hlen hnd
+    hproc hcs horder out hout
+  intro o ho
+  obtain ⟨id, c, hc⟩ := hrec o ho
+  obtain ⟨raw, h1, h2, h3, h4, h5⟩ := cellResult_election rt hv hpay id c o hc
+  exact ⟨c, raw, _, h1, h2, h3, h4, (cellResult_levels rt hv id c o hc).2.1, h5⟩
+
+example : ∀ o ∈ (List.zipWith (mkRecord exTree (exVoteP 1)) [7, 3, 9] [0, 1, 2]).map
+      (markDirect exTree.hierarchy),
+    ∃ (c : Nat) (raw : List (Level × Entry)) (flagged : Record),
+      walkFrom exTree (exVoteP 1) c exTree.hierarchy none = .ok raw ∧
+      raw.map (·.1) = exTree.hierarchy ∧ flagged.levels.map (·.1) = exTree.hierarchy ∧
+      flagged.levels.map (fun le => toElectionOut le.2) =
+        Election.finishCell (raw.map (fun le => toElectionRec le.2)) ∧
+      (∀ l ∈ exTree.hierarchy, o.levels.lookup l = flagged.levels.lookup l) ∧
+      Election.inferLevels exTree.childToParent exTree.hierarchy (toElectionCell flagged) =
+        .ok (toElectionCell o) :=
+  pipeline_record_is_election_model exTree exTree { chunkSize := 2, nProc := 2 } (exVoteP 1) 1
+    [7, 3, 9] [0, 1, 2] [1, 0] exTree_wf rfl (exVoteP_ok _ _) (exVoteP_payload _ _) rfl
+    (by decide) (by decide) (by decide) (by decide) _
+    (by
+      have := mapPipeline_plain_ok exTree { chunkSize := 2, nProc := 2 } (exVoteP 1) [7, 3, 9]
+        [0, 1, 2] [1, 0] rfl rfl exTree_wf (exVoteP_ok _ _) rfl (by decide) (by decide)
+        (by decide) (by decide)
+      exact this)
+
+/-- "a parent with a single child yields probability 1 with no runners-up":
+what the level loop records at such a parent — the hypotheses `hp`, `hc`, `hr`
+of `C03.single_child`, here read off group D's model of the loop -/
+theorem single_child_vote {κ} (t : RawTree) (vote : Oracle κ) (p : Parent) (cl : Level)
+    (only : Node) (c : κ) :
+    entryOf (voteFn t vote p cl [only] c) =
+      { assignment := only, prob := 1, corr := none, ru := some ([], [], []) } ∧
+    (toElectionRec (entryOf (voteFn t vote p cl [only] c))).prob = 1 ∧
+    (toElectionRec (entryOf (voteFn t vote p cl [only] c))).avgCorr = none ∧
+    (toElectionRec (entryOf (voteFn t vote p cl [only] c))).runnerAssignment = [] ∧
+    (toElectionRec (entryOf (voteFn t vote p cl [only] c))).runnerCorrelation = [] ∧
+    (toElectionRec (entryOf (voteFn t vote p cl [only] c))).runnerProbability = [] :=
+  ⟨rfl, rfl, rfl, rfl, rfl, rfl⟩
+
+example : (entryOf (voteFn exTree (exVoteP 1) (some (1, 20)) 2 [30] 0)).prob = 1 :=
+  (congrArg Entry.prob (single_child_vote exTree (exVoteP 1) (some (1, 20)) 2 30 0).1)
+
+/-- "the aggregate probability is the running product of the bootstrapping
+probabilities of the directly assigned levels from the top" — on group D's
+loop: after the post-loops the `aggregate_probability` entries of a cell are
+the running products of the `bootstrapping_probability` entries the level loop
+wrote, top level first (through `finishCell_agree` and `C03.aggregate`) -/
+theorem aggregate_running_product (es : List (Level × Entry))
+    (h : ∀ le ∈ es, le.2.ru.isSome = true) :
+    (LevelLoop.finishCell es).map (fun le => le.2.agg) =
+      (Election.runningProduct 1 (es.map (fun le => le.2.prob))).map some := by
+  have h1 := congrArg (List.map (·.aggregate)) (finishCell_agree es h)
+  rw [aggregate, List.map_map, List.map_map] at h1
+  have h2 : ∀ le ∈ LevelLoop.finishCell es, le.2.agg = some (le.2.agg.getD 0) := by
+    intro le hle
+    have := finishCell_agg es le hle
+    cases hagg : le.2.agg with
+    | none => rw [hagg] at this; cases this
+    | some a => rfl
+  have h3 : (LevelLoop.finishCell es).map (fun le => le.2.agg) =
+      ((LevelLoop.finishCell es).map (fun le => le.2.agg.getD 0)).map some := by
+    rw [List.map_map]
+    exact List.map_congr_left h2
+  rw [h3]
+  exact congrArg (List.map some) h1
+
+example : (LevelLoop.finishCell [(0, ⟨1, 1 / 2, some (1 / 3), some ([], [], []), none, none⟩),
+    (1, ⟨2, 1 / 2, none, some ([], [], []), none, none⟩)]).map (fun le => le.2.agg) =
+    [some (1 / 2), some (1 / 4)] := by decide +kernel
+
 /-- a flattened run of the example taxonomy: levels 0 and 1 are inferred, they
 repeat the numbers of the leaf level and have no runner-up fields -/
 example : ((mapPipeline exTree { flatten := true } (exVoteP 2) [7] [1] [0]).toOption.getD []).flatMap
